@@ -16,7 +16,7 @@ from ..core import fail, seed_eps
 RULE = ('one case = one element of the product (size, K spectrum, KG letter, basis, null pattern, requested number, solver) or one panel '
         'configuration; non-trivial = pair with at least two distinct positive multipliers')
 ASSUMPTIONS = ['ARPACK start vector is random: eigenpairs are judged through residuals and through the exactly known multipliers',
-               'requested number of eigenvalues restricted to <= active size - 2 (ARPACK limit)']
+               'more eigenvalues may be requested than the problem has: as many as the solver path can deliver must come back (and be true pairs)']
 
 
 def make_pair(n, spec, kgl, basis, nullpat, seed):
@@ -112,7 +112,7 @@ def cases(tier, seed):
             sizes, ['separated', 'repeated', 'cluster', 'decades'], ['negdef', 'mixed', 'rankdef'],
             ['diag', 'householder', 'rotations', 'generic'], ['none', 'first', 'last', 'third', 'two_thirds'], [1, 2, 5, 25], [1, 0]):
         nfinite = n if kgl != 'rankdef' else len(range(0, n, 3))
-        if num > n - 2 or num > nfinite:      # only finite multipliers can be requested
+        if kgl == 'rankdef' and num > min(nfinite, n - 2):      # only finite multipliers can be requested
             continue
         if tier == 'quick':
             if basis in ('householder', 'rotations') and (nullpat not in ('none', 'third') or spec != 'separated'):
